@@ -248,27 +248,13 @@ def branchPkg (bs : List Ty) (name : String) : Option String :=
   | some (.ref p _ _) => some p
   | _ => none
 
-/-- `E[key]…[key]` (n subscripts) evaluated with `key = k` -/
-def subscripts (k : String) : Nat → Json → DRes Json
-  | 0, e => .ok e
-  | n + 1, e =>
-    match e with
-    | .obj ms =>
-      match Json.lookup k ms with
-      | some x => subscripts k n x
-      | none => .err                                  -- KeyError
-    | _ => .err                                       -- not subscriptable / indices must be integers
-
-/- `ctx`: how the generated code spells the value being decoded.  `none`: an expression whose value
-   is `j` wherever it is evaluated (`data["k"]`, `item`).  `some (E, n)`: the expression is
-   `E[key]…[key]` (n subscripts) inside a dict comprehension `for key in ….keys()`.  The difference
-   matters for a map nested directly in a map: `fromJSONForType` names every comprehension variable
-   `key`, so in `{key: {key: D(E[key][key]) for key in E[key].keys()} for key in E.keys()}` the inner
-   body reads `E[inner][inner]`, not `E[outer][inner]` (only the iterable `E[key].keys()` is evaluated
-   with the outer binding). -/
-def pyFromJson : Nat → Schemas → Ty → Option (Json × Nat) → Json → DRes PyVal
-  | 0, _, _, _, _ => .fuel
-  | fuel + 1, ss, t, ctx, j =>
+/- Maps nested in maps: since /repo 60e31f6 every nesting level of dict comprehensions has its own
+   loop variable (`key`, `key1`, `key2`, … = number of "_map" in the hint), so the value expression
+   `E[key][key1]…` denotes the entry being visited at every level: decoding is entry-wise.  (Before
+   that commit every level used `key` and the inner body read `E[inner][inner]`.) -/
+def pyFromJson : Nat → Schemas → Ty → Json → DRes PyVal
+  | 0, _, _, _ => .fuel
+  | fuel + 1, ss, t, j =>
     match t with
     | .ref pkg name _ =>
       match Schemas.locateObject ss pkg name with
@@ -276,22 +262,19 @@ def pyFromJson : Nat → Schemas → Ty → Option (Json × Nat) → Json → DR
       | some o =>
         match o.ty with
         | .struct fields _ _ _ =>
-          classFromJsonWith (fun t' => pyFromJson fuel ss t' none) (fun t' => pyDefault fuel ss t' (overridesOf t')) fields j
-        | other => pyFromJson fuel ss other ctx j
+          classFromJsonWith (pyFromJson fuel ss) (fun t' => pyDefault fuel ss t' (overridesOf t')) fields j
+        | other => pyFromJson fuel ss other j
     | .array e _ =>
       if e.isScalar then .ok (PyVal.ofJson j)
       else match j with
-        | .arr xs => (mapRes (pyFromJson fuel ss e none) xs).map .list
+        | .arr xs => (mapRes (pyFromJson fuel ss e) xs).map .list
         | .null | .bool _ | .num _ => .err            -- not iterable
         | _ => .unsup "iteration over a str/dict"
     | .map _ v _ =>
       if v.isScalar then .ok (PyVal.ofJson j)
       else match j with
         | .obj kvs =>
-          let base : Json × Nat := ctx.getD (j, 0)
-          (mapRes (fun (kv : String × Json) =>
-            (subscripts kv.1 (base.2 + 1) base.1).bind fun z =>
-              (pyFromJson fuel ss v (some (base.1, base.2 + 1)) z).map fun x => (kv.1, x)) kvs).map .dict
+          (mapRes (fun (kv : String × Json) => (pyFromJson fuel ss v kv.2).map fun x => (kv.1, x)) kvs).map .dict
         | _ => .err                                   -- no attribute 'keys'
     | .disj bs info _ =>
       if info.discriminator == "" || info.mapping.isEmpty then .ok (PyVal.ofJson j)
@@ -315,7 +298,7 @@ def pyFromJson : Nat → Schemas → Ty → Option (Json × Nat) → Json → DR
             | some tn =>
               match branchPkg bs tn with
               | none => .unsup "mapping target is not a branch"
-              | some p => pyFromJson fuel ss (.ref p tn {}) none j
+              | some p => pyFromJson fuel ss (.ref p tn {}) j
         | _ => .err                                   -- not subscriptable / indices must be integers
     | .scalar .. => .ok (PyVal.ofJson j)
     | .enum .. => .ok (PyVal.ofJson j)
@@ -323,7 +306,7 @@ def pyFromJson : Nat → Schemas → Ty → Option (Json × Nat) → Json → DR
 
 /-- what the lab driver's `roundtrip` does: `dumps(X.from_json(loads(doc)), cls=JSONEncoder)` -/
 def pyRoundTrip (fuel : Nat) (ss : Schemas) (pkg name : String) (j : Json) : DRes Json :=
-  if wfJson j then (pyFromJson fuel ss (.ref pkg name {}) none j).map pyToJson
+  if wfJson j then (pyFromJson fuel ss (.ref pkg name {}) j).map pyToJson
   else .unsup "duplicate keys"
 
 end Cog.Sem
